@@ -156,14 +156,14 @@ def amortizedNewCap (c : Cfg) (v : VS) (used extra : Nat) : Option Nat :=
 def resizeSlots (s : List (Option Elem)) (newCap : Nat) : List (Option Elem) :=
   s.take newCap ++ List.replicate (newCap - s.length) none
 
-/-- `reserve_internal` (raw_vec.rs:652-695).  `Layout::array` of this crate only catches a
-`usize` overflow of the byte size; larger-than-`isize::MAX` requests reach the arena, which
-refuses them (`allocOk = false`). -/
+/-- `reserve_internal` (raw_vec.rs:652-695).  `Layout::array::<T>(new_cap)` is std's inherent method (it shadows the crate's
+`UnstableLayoutMethods::array`): it refuses a byte size above `isize::MAX` rounded down to the alignment with
+`CapacityOverflow`; what passes reaches the arena, which may refuse it (`allocOk = false`, or above `allocLimit`). -/
 def reserveInternal (c : Cfg) (v : VS) (used extra : Nat) (exact : Bool) : Except RErr VS :=
   match (if exact then checkedAdd used extra else amortizedNewCap c v used extra) with
   | none => .error .capOverflow
   | some newCap =>
-    match checkedMul c.esz newCap with
+    match arrayLayout c.esz c.eal newCap with
     | none => .error .capOverflow
     | some bytes =>
       if !c.allocOk || decide (bytes > c.allocLimit) then .error .allocErr
